@@ -1,0 +1,53 @@
+//go:build verif
+
+// Accessors for the verification harness in /verif (build tag "verif").
+// This file only adds exported wrappers around unexported items; it changes
+// no behaviour and is absent from normal builds.
+
+package egress
+
+import (
+	"context"
+	"net"
+	"net/http"
+	"syscall"
+
+	"github.com/conduitio/conduit/pkg/foundation/cerrors"
+)
+
+// VerifDialControl exposes Service.dialControl.
+func VerifDialControl(s *Service, network, address string, c syscall.RawConn) error {
+	return s.dialControl(network, address, c)
+}
+
+// VerifDialContext exposes Service.dialContext for a caller-supplied base dialer.
+func VerifDialContext(s *Service, base *net.Dialer) func(context.Context, string, string) (net.Conn, error) {
+	return s.dialContext(base)
+}
+
+// VerifSetBaseDialer re-points the Service's transport at dialContext(base), so a harness can
+// observe (and stop) connection attempts of Service.Do at the Control hook.
+func VerifSetBaseDialer(s *Service, base *net.Dialer) {
+	s.client.Transport.(*http.Transport).DialContext = s.dialContext(base)
+}
+
+// VerifMatchesCarveOut exposes Policy.matchesCarveOut.
+func VerifMatchesCarveOut(p Policy, ip net.IP, port string) bool { return p.matchesCarveOut(ip, port) }
+
+// VerifRefusalReason reports the audit reason if err carries a dialRefusedError.
+func VerifRefusalReason(err error) (string, bool) {
+	var r *dialRefusedError
+	if cerrors.As(err, &r) {
+		return string(r.reason), true
+	}
+	return "", false
+}
+
+// VerifIsDNSError reports whether err carries a dnsError.
+func VerifIsDNSError(err error) bool {
+	var d *dnsError
+	return cerrors.As(err, &d)
+}
+
+// VerifCloseIdleConnections releases the Service's idle connections (harness hygiene).
+func VerifCloseIdleConnections(s *Service) { s.client.CloseIdleConnections() }
